@@ -144,16 +144,15 @@ func safetyProp(p string) bool {
 }
 
 func (w *World) classifyKnown(v *Violation) string {
-	safety := safetyProp(v.Prop)
-	for _, a := range v.Also {
-		if safetyProp(a) {
-			safety = true
-		}
-	}
-	if safety && w.mon.taintF1b != "" && KnownFindings["F1b"] {
+	// Once the root event of F1b or F6 has happened in a world (a leader was
+	// elected on a stale grant / with a configuration older than one an earlier
+	// incarnation had applied) the premises of every property are gone in that
+	// world: whatever follows is attributed to that finding. Worlds without
+	// the root event are judged normally.
+	if w.mon.taintF1b != "" && KnownFindings["F1b"] {
 		return "F1b: " + w.mon.taintF1b
 	}
-	if (safety || v.Prop == "C10") && w.mon.taintF6 != "" && KnownFindings["F6"] {
+	if w.mon.taintF6 != "" && KnownFindings["F6"] {
 		return "F6: " + w.mon.taintF6
 	}
 	return ""
